@@ -3,7 +3,7 @@ nondeterminism sources, items-are-only-compared-and-hashed)."""
 import re
 from .core import RuleResult
 from .callgraph import CallGraph, peel, ty_head
-from .facts import term_str
+from .facts import term_str, targs
 
 _cg_cache = {}
 
@@ -220,7 +220,7 @@ def _d2_follow(fn, bb, t):
             elif is_iter and meth in REDUCERS:
                 consumed = True
             elif is_iter and meth == "collect":
-                head = ty_head(c["args"][1]) if len(c["args"]) > 1 else None
+                head = ty_head(targs(c)[1]) if len(targs(c)) > 1 else None
                 if head in ("std::vec::Vec", "std::collections::VecDeque", "std::string::String") or head is None \
                         or head.startswith("["):
                     if dst not in seqs:
@@ -462,12 +462,12 @@ def rule_D4(prog):
                     bad = "trait method %s::%s applied to an item (only ==, != and hash are allowed)" % (c["trait"], c["method"])
             if bad is None and p.startswith(ORDER_CONTAINERS):
                 # keyed/ordered by item?
-                if any(_elem_is_item(a, ip) for a in c["args"][:1]):
+                if any(_elem_is_item(a, ip) for a in targs(c)[:1]):
                     bad = "order-based container %s keyed by item type" % p
             if bad is None and ORDER_FNS.search(p) and any(_elem_is_item(a, ip) for a in c["args"]):
                 bad = "order-based function %s instantiated at item type" % p
             if bad is None and p in ("core::fmt::rt::Argument::<'_>::new_debug", "core::fmt::rt::Argument::<'_>::new_display") \
-                    and _elem_is_item(c["args"][0], ip):
+                    and targs(c) and _elem_is_item(targs(c)[0], ip):
                 bad = "formatting of an item value"
             r.ob(bad is None, "%s: %s%s" % (fn.path, c.get("path_args", p)[:120], "" if bad is None else "  <-- " + bad))
             if bad:
